@@ -430,7 +430,7 @@ fn run_exec(scn: &C05Scn, r: &Run, text: &str) -> (Fs, Exec) {
             decoy.clone()
         }
     };
-    (fs, Exec { argv, stdin, env: r.env.clone(), clock, io: r.io.clone(), stdout_tty: false, sizeless: vec![] })
+    (fs, Exec { argv, stdin, env: r.env.clone(), clock, io: r.io.clone(), stdout_tty: false, sizeless: vec![], mtimes: Default::default() })
 }
 
 /// (parent id, element) pairs in document order
